@@ -12,7 +12,7 @@ def run(tier, v):
     ex = fsx.Explorer()
     names = ["S1", "S2", "S3", "S4", "S5", "S6", "S7", "S10"] + (["S5b"] if tier == "thorough" else [])
     bound = 2 if tier == "thorough" else 1
-    menu = {"kill", "fail", "short"}
+    menu = {"kill", "fail", "short", "logfail"}
     total_exec = 0
 
     def oracle(sc, base, x):
@@ -54,7 +54,7 @@ def run(tier, v):
         base, nx, capped = ex.explore(sc, menu, this_bound, oracle)
         total_exec += nx
         edited = sum(1 for f, o in sc.source_bytes().items() if base.src.get(f) != o)
-        v.subspace("%s: every op x {kill-before,kill-after,fail(errno menu),short}, deviation bound %d" % (sc.name, this_bound),
+        v.subspace("%s: every op x {kill-before,kill-after,fail(errno menu),short,EPIPE on stdout}, deviation bound %d" % (sc.name, this_bound),
                    nx, exhaustive=not capped, ops_in_fault_free_run=len(base.trace), files_edited_fault_free=edited)
         if len(v.coverage["samples"]) < 6:
             v.sample({"scenario": sc.name, "fault_free_trace": ["%d:%s %s" % (o.k, o.op, o.path) for o in base.trace if o.cls != "log"][:60]})
